@@ -6,6 +6,8 @@
 // flipped, wrong length, bits not matching S, tampered content).
 // Oracle: VerifySignature == nil  =>  (bitmap bits < n) == S  and  |S| >= floor(2n/3)+1  and  leader in S
 // (padding bits never count). Non-vacuity: an honest quorum with the exact bitmap must be accepted.
+// Adversarial family: groups with one or two ROGUE public keys (x*G2 minus the sum of other members' keys);
+// the rogue member alone (or with the honest leader) aggregates a signature for a bitmap that claims a quorum.
 // Extensions: a few large groups (n in 63, 257, 300, 400) with signers and bits above member index 255; and
 // in a third of the small cases the REAL fallback.NewFallbackHeaderValidator (headers pool stub / chain
 // storer mock holding the previous meta header) with start-of-epoch meta headers at round gaps
@@ -184,6 +186,7 @@ type variant struct {
 type caseSpec struct {
 	n     int
 	large bool // n > 256: reduced, targeted variant matrix
+	rogue bool // adversarial group: one or two public keys are built from other members' public keys
 }
 
 type prevScenario struct {
@@ -223,19 +226,268 @@ func main() {
 	var specs []caseSpec
 	for rep := 0; rep < r.N(3, 12); rep++ { // large groups first: they are the long cases
 		for _, n := range []int{400, 300, 257, 63} {
-			specs = append(specs, caseSpec{n, n > 256})
+			specs = append(specs, caseSpec{n: n, large: n > 256})
 		}
+	}
+	for i := 0; i < r.N(16, 240); i++ { // rogue-key groups
+		specs = append(specs, caseSpec{n: 4 + i%9, rogue: true})
 	}
 	nLarge := len(specs)
 	for i := 0; i < r.N(462, 6300); i++ {
-		specs = append(specs, caseSpec{1 + i%21, false})
+		specs = append(specs, caseSpec{n: 1 + i%21})
 	}
 	gaps := []int64{0, 1, 40, 49, 50, 51, 1000}
+
+	// Rogue-key family. The adversary controls the members in `rogues`; the public key of a rogue member is
+	// x*G2 - sum(public keys of its victims), for a secret x the adversary knows (it does not know the discrete log
+	// of the registered key, nor any honest secret). It contributes the plain signature x*H(m); the shares claimed
+	// for the victims are G1 points that cancel out (s, s, ..., -(k-1)s). The bitmap names rogues + victims
+	// (+ the honest leader if the leader really signs). Real contributors: rogues (+ leader): fewer than the threshold.
+	rogueCase := func(c *vk.Case, n int) {
+		rng := c.Rng
+		thr := n*2/3 + 1
+		perm := rng.Perm(smallPool)
+		members := make([]keyPair, n)
+		for i := 0; i < n; i++ {
+			members[i] = pool[perm[i]]
+		}
+		variant := c.Idx % 3 // 0: rogue leader alone; 1: honest leader signs + one rogue member; 2: two rogue members (leader + another)
+		var rogues []int
+		switch variant {
+		case 0:
+			rogues = []int{0}
+		case 1:
+			rogues = []int{1 + rng.Intn(n-1)}
+		default:
+			rogues = []int{0, 1 + rng.Intn(n-1)}
+		}
+		isRogue := map[int]bool{}
+		for _, x := range rogues {
+			isRogue[x] = true
+		}
+		real := map[int]bool{}
+		for _, x := range rogues {
+			real[x] = true
+		}
+		if variant == 1 {
+			real[0] = true
+		}
+		// victims: enough honest members so that the bitmap claims exactly the threshold (or everybody)
+		var honest []int
+		for i := 1; i < n; i++ {
+			if !isRogue[i] {
+				honest = append(honest, i)
+			}
+		}
+		need := thr - len(real)
+		if rng.Chance(1, 4) {
+			need = len(honest)
+		}
+		if need < 2*len(rogues) || need > len(honest) || len(real) >= thr {
+			r.Trivial()
+			return
+		}
+		pv := rng.Perm(len(honest))
+		victimsOf := map[int][]int{}
+		claimed := map[int]bool{}
+		for x := range real {
+			claimed[x] = true
+		}
+		for k := 0; k < need; k++ {
+			v := honest[pv[k]]
+			ro := rogues[k%len(rogues)]
+			victimsOf[ro] = append(victimsOf[ro], v)
+			claimed[v] = true
+		}
+		group := make([]string, n)
+		pkObjs := make([]crypto.PublicKey, n)
+		for i := 0; i < n; i++ {
+			group[i] = members[i].pk
+			pkObjs[i] = members[i].pkObj
+		}
+		rogueSk := map[int]crypto.PrivateKey{}
+		for _, ro := range rogues {
+			b := rng.Bytes(32)
+			b[0] &= 0x3f
+			b[31] &= 0x3f
+			b[1] |= 1
+			skX, err := kg.PrivateKeyFromByteArray(b)
+			if err != nil {
+				r.Inconclusive("rogue scalar: " + err.Error())
+				return
+			}
+			pt := skX.GeneratePublic().Point()
+			for _, v := range victimsOf[ro] {
+				pt, err = pt.Sub(members[v].pkObj.Point())
+				if err != nil {
+					r.Inconclusive("rogue key arithmetic: " + err.Error())
+					return
+				}
+			}
+			pb, err := pt.MarshalBinary()
+			if err != nil {
+				r.Inconclusive("rogue key arithmetic: " + err.Error())
+				return
+			}
+			pko, err := kg.PublicKeyFromByteArray(pb)
+			if err != nil {
+				r.Inconclusive("rogue public key not accepted by the key generator: " + err.Error())
+				return
+			}
+			group[ro], pkObjs[ro], rogueSk[ro] = string(pb), pko, skX
+		}
+		meta := rng.Bool()
+		hdr := mkHeader(rng, meta)
+		nc := &mock.NodesCoordinatorMock{GetValidatorsPublicKeysCalled: func(_ []byte, _ uint64, _ uint32, _ uint32) ([]string, error) {
+			return append([]string(nil), group...), nil
+		}}
+		hsv, err := headerCheck.NewHeaderSigVerifier(&headerCheck.ArgsHeaderSigVerifier{
+			Marshalizer: msh, Hasher: hsh, NodesCoordinator: nc, MultiSigVerifier: tmpl,
+			SingleSigVerifier: &mock.SignerMock{}, KeyGen: kg, FallbackHeaderValidator: &testscommon.FallBackHeaderValidatorStub{},
+		})
+		if err != nil {
+			r.Violation(c.Idx, "constructor", err.Error(), nil)
+			return
+		}
+		cp := hdr.Clone()
+		cp.SetSignature(nil)
+		cp.SetPubKeysBitmap(nil)
+		cp.SetLeaderSignature(nil)
+		msg, err := core.CalculateHash(msh, hsh, cp)
+		if err != nil {
+			r.Violation(c.Idx, "harness-hash", err.Error(), nil)
+			return
+		}
+		shares := map[int][]byte{}
+		if variant == 1 {
+			shares[0], _ = llSigner.SignShare(members[0].sk, msg)
+		}
+		for _, ro := range rogues {
+			sx, err := llSigner.SignShare(rogueSk[ro], msg)
+			if err != nil {
+				r.Inconclusive("rogue signing: " + err.Error())
+				return
+			}
+			shares[ro] = sx
+			// cancelling shares for the victims: s, s, ..., -(k-1)s with s = the rogue's own signature point
+			sp := mcl.NewPointG1()
+			if err := sp.UnmarshalBinary(sx); err != nil {
+				r.Inconclusive("signature bytes are not a G1 point: " + err.Error())
+				return
+			}
+			vs := victimsOf[ro]
+			var sum crypto.Point = sp.Clone()
+			for k := 0; k < len(vs)-1; k++ {
+				shares[vs[k]] = sx
+				if k > 0 {
+					sum, _ = sum.Add(sp)
+				}
+			}
+			lastShare, err := sum.Neg().MarshalBinary()
+			if err != nil {
+				r.Inconclusive("G1 arithmetic: " + err.Error())
+				return
+			}
+			if err := llSigner.VerifySigBytes(suite, lastShare); err != nil {
+				r.Inconclusive("cancelling share is not a valid signature encoding: " + err.Error())
+				return
+			}
+			shares[vs[len(vs)-1]] = lastShare
+		}
+		// two ways to aggregate: the low-level signer directly, and the public multi-signer API
+		var sigs [][]byte
+		var pks []crypto.PublicKey
+		for i := 0; i < n; i++ {
+			if claimed[i] {
+				sigs = append(sigs, shares[i])
+				pks = append(pks, pkObjs[i])
+			}
+		}
+		bitmap := bitmapOf(claimed, n)
+		aggs := map[string][]byte{}
+		if a, err := llSigner.AggregateSignatures(suite, sigs, pks); err == nil {
+			aggs["low-level"] = a
+		}
+		if ms, err := multisig.NewBLSMultisig(llSigner, group, members[1].sk, kg, 1); err == nil {
+			ok := true
+			for i := range claimed {
+				if ms.StoreSignatureShare(uint16(i), shares[i]) != nil {
+					ok = false
+				}
+			}
+			if a, err := ms.AggregateSigs(bitmap); ok && err == nil {
+				aggs["multisigner-api"] = a
+			}
+		}
+		if len(aggs) == 0 {
+			r.Inconclusive("rogue aggregate could not be built")
+			return
+		}
+		for how, agg := range aggs {
+			h := hdr.Clone()
+			h.SetSignature(append([]byte(nil), agg...))
+			h.SetPubKeysBitmap(append([]byte(nil), bitmap...))
+			verr := hsv.VerifySignature(h)
+			r.Eval(1)
+			r.Count("rogue_key_verifications", 1)
+			verdict := "rej"
+			if verr == nil {
+				verdict = "acc"
+			} else {
+				r.Count("rogue_rejected:"+errClass(verr), 1)
+			}
+			r.Shape(fmt.Sprintf("rogue n%d variant%d claimed%d real%d %s %s", n, variant, len(claimed), len(real), how, verdict))
+			if verr == nil {
+				r.Violation(c.Idx, "quorum-bypass class=rogue-key",
+					fmt.Sprintf("n=%d threshold=%d: bitmap %x claims members {%s}; only {%s} contributed (rogue members %v registered x*G2 - sum of their victims' keys): VerifySignature == nil", n, thr, bitmap, setStr(claimed), setStr(real), rogues),
+					map[string]interface{}{"n": n, "threshold": thr, "variant": variant, "rogue_members": rogues, "victims": fmt.Sprint(victimsOf), "claimed": setStr(claimed),
+						"real_contributors": setStr(real), "bitmap": vk.Hex(bitmap), "aggregated_with": how, "group_pool_indices": perm[:n]})
+			}
+		}
+		// the honest members of such a group can still produce an accepted quorum (non-vacuity)
+		if len(honest)+1-len(rogues)+boolInt(!isRogue[0]) >= 0 {
+			S := map[int]bool{}
+			if !isRogue[0] {
+				S[0] = true
+				for _, v := range honest {
+					if len(S) < thr {
+						S[v] = true
+					}
+				}
+				if len(S) >= thr {
+					var hs [][]byte
+					var hp []crypto.PublicKey
+					for i := 0; i < n; i++ {
+						if S[i] {
+							sh, _ := llSigner.SignShare(members[i].sk, msg)
+							hs = append(hs, sh)
+							hp = append(hp, pkObjs[i])
+						}
+					}
+					if a, err := llSigner.AggregateSignatures(suite, hs, hp); err == nil {
+						h := hdr.Clone()
+						h.SetSignature(a)
+						h.SetPubKeysBitmap(bitmapOf(S, n))
+						r.Eval(1)
+						if verr := hsv.VerifySignature(h); verr != nil {
+							r.Violation(c.Idx, "rejected-honest-quorum class=rogue-group", fmt.Sprintf("n=%d honest quorum {%s} in a group with a rogue key rejected: %v", n, setStr(S), verr), nil)
+						} else {
+							r.Count("accepted_honest", 1)
+						}
+					}
+				}
+			}
+		}
+	}
 
 	r.Parallel(len(specs), func(c *vk.Case) {
 		rng := c.Rng
 		spec := specs[c.Idx]
 		n := spec.n
+		if spec.rogue {
+			rogueCase(c, n)
+			return
+		}
 		var perm []int
 		if n <= smallPool-5 {
 			perm = rng.Perm(smallPool)
@@ -628,6 +880,13 @@ func main() {
 		}
 	})
 	r.Finish()
+}
+
+func boolInt(b bool) int {
+	if b {
+		return 1
+	}
+	return 0
 }
 
 func abbreviate(s string) string {
